@@ -103,6 +103,17 @@ def oracle_spec(s, row):
         return "printing raised %r" % ex
     if printed != line:
         return "printed line differs: %r" % printed
+    # the parsed Feature is the caller's: editing its value lists / extra columns in place must not change what parsing
+    # the same line again gives
+    for v in f.attributes._d.values():
+        v.append("edited-in-place")
+    f.extra.append("edited-in-place")
+    try:
+        again = str(feature_from_line(line, keep_order=True))
+    except Exception as ex:
+        return "parsing the same line again raised %r" % ex
+    if again != line:
+        return "the same line parsed again, after the first Feature was edited in place, prints differently: %r" % again
     return None
 
 
